@@ -268,11 +268,12 @@ def observe_direct(prot, rows, rng_seed, index=None):
     return obs, None
 
 
-def observe_e2e(prot, rows, rng_seed, work):
+def observe_e2e(prot, rows, rng_seed, work, chunk=None):
     from mokapot.confidence import assign_confidence
     from mc.datasets import make_dataset, read_result, set_chunks, DEFAULT_CHUNKS
 
-    set_chunks(**DEFAULT_CHUNKS)
+    # chunk: the streaming chunk size of confidence assignment (rows); smaller than the peptide table when given
+    set_chunks(**(dict(DEFAULT_CHUNKS, CONFIDENCE_CHUNK_SIZE=chunk) if chunk else DEFAULT_CHUNKS))
     n = len(rows)
     df = pd.DataFrame({
         "SpecId": [f"s{i}" for i in range(n)],
@@ -354,10 +355,13 @@ def run_table(prot, model, case, acc, work):
             else:
                 sub = work / "e2e"
                 sub.mkdir()
-                obs, err = observe_e2e(prot, rows, case.get("rng", 0), sub)
+                obs, err = observe_e2e(prot, rows, case.get("rng", 0), sub, case.get("chunk"))
         finally:
             if sub is not None:
                 shutil.rmtree(sub, ignore_errors=True)
+                from mc.datasets import set_chunks, DEFAULT_CHUNKS
+
+                set_chunks(**DEFAULT_CHUNKS)
     except Exception as e:
         cls, desc = classify_exception(e)
         if negative:
@@ -447,7 +451,8 @@ def plan(quick):
                     e_rmax = 2 if nu <= 2 else 1
                 else:
                     e_rmax = 3 if (t <= 2 and nu <= 2) else 2 if t <= 2 else 1
-                add(db, few, "e2e", nslices=max(1, count(e_rmax) * 2 // 25), rmax=e_rmax, rmax2=2)
+                add(db, few, "e2e", nslices=max(1, count(e_rmax) * 3 // 25), rmax=e_rmax, rmax2=2,
+                    chunks=[2] if quick else [1, 2, 3])
             # accessions spelled with letters of the decoy prefix ("cyc1", "ded1", ...)
             if t >= 2:
                 add(db, few, "direct", rmax=2 if quick else 3, rmax2=1, names="prefix")
@@ -487,6 +492,8 @@ def worker(item):
                     cases = [dict(mode="e2e", notation="plain", rows="token")]
                     if len(table) <= 1 or vi == 0 and len(table) == 2 and table[0][1] == 0:
                         cases += [dict(mode="e2e", notation="mixed", rows="asc"), dict(mode="e2e", notation="all", rows="rot")]
+                    if vi == 0:  # the peptide table streamed in chunks smaller than itself
+                        cases += [dict(mode="e2e", notation="plain", rows="token", chunk=c) for c in item.get("chunks", ())]
                 for extra in cases:
                     idx += 1
                     if idx % item["n"] != item["k"]:
